@@ -101,7 +101,19 @@ def _run(ctx, base):
         jobs, mjobs, meta = [], [], []
         for (sh, lay, o), rec in zip(cases, recs):
             un = rec["un"]
-            if un.get("error") or rec["problems"]:
+            if un.get("error"):
+                continue
+            if rec["problems"]:
+                # the model no longer matches the server: search for a concrete failing boundary with the monitor alone
+                for (k, name, ordinal, frag, label) in B.injection_points(un, every_syscall=True):
+                    for mode, err in [("crash", None), ("fault", "ENOSPC")]:
+                        tag = "%s-%d%d-%s-s%d-%s%s" % (sh, lay[0], lay[1], o, len(jobs), mode, err or "")
+                        jobs.append(dict(base=base, shape=sh, lay=lay, opname=o, tag=tag, inject=(mode, err, name, ordinal),
+                                         pre_abs=un["pre_abs"], post_abs=un["post_abs"], list_before=un["list_before"],
+                                         list_after=un["list_after"], allowed=allowed_states(un, B.all_ops()[o]),
+                                         names=un["names"], contents=un["contents"]))
+                        mjobs.append(None)
+                        meta.append(dict(case=(o, sh, tuple(lay)), k=-2, label=label, mode=mode, err=err, un=un))
                 continue
             ctx.traces_validated += 1
             allowed = allowed_states(un, B.all_ops()[o])
@@ -127,7 +139,7 @@ def _run(ctx, base):
                     meta.append(dict(case=(o, sh, tuple(lay)), k=k, label=label, mode=mode, err=err, un=un))
             # lock-file opens precede every change: the store must stay as before
             if not ctx.quick or o in ("put_new", "delete_coll"):
-                for (name, ordinal) in un["locks"][-1:]:
+                for (name, ordinal) in un["locks"][:1]:
                     for mode, err in [("crash", None), ("fault", "EACCES")]:
                         tag = "%s-%d%d-%s-lock-%s" % (sh, lay[0], lay[1], o, mode)
                         jobs.append(dict(base=base, shape=sh, lay=lay, opname=o, tag=tag, inject=(mode, err, name, ordinal),
@@ -166,7 +178,7 @@ def _run(ctx, base):
                 signature="C02:%s:%s" % (mt["case"][0], "crash" if mt["mode"] == "crash" else mt["err"]))
             continue
         if mj is None:
-            if res["cls"] not in ("before", "same"):
+            if mt["k"] == -1 and res["cls"] not in ("before", "same"):
                 mism.append("%s lock-open %s: store is %s" % (mt["case"], mt["mode"], res["cls"]))
             continue
         if model[0] == "error":
